@@ -61,14 +61,25 @@ def bp_case(g):
     SR = r.choice([10, 100, 1e3, 2.5])
     if r.random() < 0.5:
         o1, i1 = g.blueprint("p", SR=SR, nseg=(1, 4), kinds=("ramp", "sine", "user"), waits=0.2, aligned=True, markers=True)
-    else:   # durations off the sample grid (|f| <= 0.4): segment starts must come from the rounded counts
+    elif r.random() < 0.5:   # durations off the sample grid (|f| <= 0.4): segment starts must come from the rounded counts
         o1, i1 = g.blueprint("p", SR=SR, nseg=(2, 5), kinds=("ramp", "sine", "user"), waits=0.0, aligned=False, markers=True, nmax=12)
+    else:
+        # every segment of the first operand a third of a sample too long (or too short): the residues add up to
+        # more than a sample, the rounded counts do not
+        f = r.choice([0.3, -0.3, 0.35])
+        counts = [r.randint(3, 12) for _ in range(r.randint(3, 5))]
+        o1 = [{"op": "bp.new", "id": "p"}]
+        for n in counts:
+            o1.append({"op": "bp.insert", "id": "p", "pos": -1, "fn": "ramp", "args": [enc(g.fnum()), enc(g.fnum())],
+                       "dur": enc((n + f) / SR), "name": None})
+        o1.append({"op": "bp.setSR", "id": "p", "SR": enc(SR)})
+        i1 = {"SR": SR, "counts": counts, "N": sum(counts)}
     o2, i2 = g.blueprint("r", SR=SR, nseg=(1, 4), kinds=("ramp", "sine", "user"), waits=0.0, aligned=True, markers=False)
     n1 = [n for n, _ in seg_table(o1)]
     n2 = [n for n, _ in seg_table(o2)]
     ops = o1 + g.seg_marker_ops("p", n1, i1) + o2
     for nm, n in zip(n2, i2["counts"]):
-        if r.random() < 0.6:
+        if r.random() < 0.8:
             ops.append({"op": "bp.setSegMarker", "id": "r", "name": nm, "specs": [q(r.randint(0, n - 1) / SR), q(r.randint(1, n) / SR)],
                         "mid": r.choice([1, 2])})
     ops += [{"op": "bp.add", "a": "p", "b": "r", "to": "pr"}, {"op": "bp.desc", "id": "pr"}, {"op": "bp.desc", "id": "p"}]
@@ -80,7 +91,7 @@ def bp_case(g):
 
 def case(g, tier, ci):
     r = g.r
-    if r.random() < 0.2:
+    if r.random() < 0.3:
         return bp_case(g)
     SR = r.choice([10, 100, 1e3, 2.5, 1e6])
     chans = r.sample([1, 2, 3, "A", "B"], r.randint(1, 3))
